@@ -117,17 +117,24 @@ def _digital_cycles(spec):
     return (gate * cycles_load_store) + cycles
 
 
+def _a_precision(spec):
+    # the MPS/ODiMO layers describe the precision of their input activations as 'in_precision'
+    return spec['a_precision'] if 'a_precision' in spec else spec['in_precision']
+
+
 def _diana_latency_conv2d_generic(spec):
     # note that the Diana analog accelerator actually uses ternary precision, not really 2-bit
     # but in the DNAS, the ternary quantizer is treated as a 2-bit one
     # also, the activations are actually on 7-bit, but we use 8-bit during the search, as
     # explained in the paper
-    if spec['w_precision'] == 2 and spec['a_precision'] == 8:
+    a_precision = _a_precision(spec)
+    if spec['w_precision'] == 2 and a_precision == 8:
         return _analog_cycles(spec)
-    elif spec['w_precision'] == 8 and spec['a_precision'] == 8:
+    elif spec['w_precision'] == 8 and a_precision == 8:
         return _digital_cycles(spec)
     else:
-        raise ValueError(f'Unsupported weights/activations precision: {spec["w_precision"]} / {spec["a_precision"]}')
+        raise ValueError(
+            f'Unsupported weights/activations precision: {spec["w_precision"]} / {a_precision}')
 
 
 def _diana_latency_linear(spec):
@@ -139,7 +146,7 @@ def _diana_latency_linear(spec):
     new_spec['groups'] = 1
     new_spec['output_shape'] = spec['output_shape'] + (1, 1)
     new_spec['w_precision'] = spec['w_precision']
-    new_spec['a_precision'] = spec['a_precision']
+    new_spec['a_precision'] = _a_precision(spec)
     return _diana_latency_conv2d_generic(new_spec)
 
 
